@@ -46,6 +46,8 @@ structure Cfg where
   soft0 : Nat
   cel0 : Nat            -- lowest_celestia_search_height
   lookahead : Nat       -- celestia_search_height_max_look_ahead
+  lie : Nat := 0        -- fault injection of the harness' rollup: 0 = honest; k > 0 = the k-th
+                        -- ExecuteBlock answer carries a block number that violates the contract
   deriving DecidableEq, Repr
 
 /-- A rollup block as the execution API reports it (`ExecutedBlockMetadata`): number, hash
@@ -114,18 +116,22 @@ structure Rollup where
   blocks : List Blk      -- every block ever produced, newest first
   c : Commit
   nextId : Nat
+  lieAt : Nat := 0       -- see `Cfg.lie`
+  execs : Nat := 0       -- ExecuteBlock requests answered so far
   deriving DecidableEq, Repr
 
 def Rollup.init (cfg : Cfg) : Rollup :=
-  ⟨initBlocks cfg, initCommit cfg, cfg.soft0 - cfg.firm0 + 2⟩
+  ⟨initBlocks cfg, initCommit cfg, cfg.soft0 - cfg.firm0 + 2, cfg.lie, 0⟩
 
 /-- `ExecuteBlock`: only on top of the current soft head (as astria-geth does); the new block
-    gets the next number and a fresh hash. -/
+    gets the next number and a fresh hash. (With fault injection the `lieAt`-th answer skips a
+    number, which the executor's contract check has to catch.) -/
 def Rollup.executeBlock (r : Rollup) (parent seq : Nat) : Res Blk × Rollup :=
   if parent ≠ r.c.soft.id then (.rej .notHead, r)
   else
-    let b : Blk := ⟨r.c.soft.number + 1, r.nextId, parent, seq⟩
-    (.ok b, { r with blocks := b :: r.blocks, nextId := r.nextId + 1 })
+    let n := if r.lieAt ≠ 0 ∧ r.execs + 1 = r.lieAt then r.c.soft.number + 2 else r.c.soft.number + 1
+    let b : Blk := ⟨n, r.nextId, parent, seq⟩
+    (.ok b, { r with blocks := b :: r.blocks, nextId := r.nextId + 1, execs := r.execs + 1 })
 
 /-- `UpdateCommitmentState`: both blocks must be blocks this rollup produced, firm ≤ soft,
     neither commitment may move backwards. -/
@@ -135,10 +141,11 @@ def Rollup.update (r : Rollup) (f s : Blk) (cel : Nat) : Res Commit × Rollup :=
   else if f.number < r.c.firm.number ∨ s.number < r.c.soft.number then (.rej .decrease, r)
   else (.ok ⟨f, s, cel⟩, { r with c := ⟨f, s, cel⟩ })
 
-/-- `GetExecutedBlockMetadata(number)`. -/
+/-- `GetExecutedBlockMetadata(number)`. (With fault injection it answers with the block below
+    the requested one, which the client has to refuse.) -/
 def Rollup.getBlock (r : Rollup) (n : Nat) : Res Blk :=
   if n > r.c.soft.number then .rej .noSuchBlock
-  else match r.blocks.find? (fun b => b.number = n) with
+  else match r.blocks.find? (fun b => b.number = if r.lieAt ≠ 0 then n - 1 else n) with
     | some b => .ok b
     | none => .rej .noSuchBlock
 
